@@ -193,6 +193,7 @@ PROPS = {
             {"run": "^TestC19$", "quick": 100000, "thorough": 1000000},
             {"run": "^TestC19Multi$", "quick": 20000, "thorough": 200000},
             {"run": "^TestC19Seq$", "quick": 20000, "thorough": 200000},
+            {"run": "^TestC19Registered$", "quick": 1, "thorough": 1, "single": True, "rapid": False},
         ],
     },
     "C10": {
